@@ -721,7 +721,7 @@ func loneElisionRejectedIn(r *an.Run, f *ssa.Function, gt map[string]string) int
 		return an.IsNamed(al.Type().Underlying().(*types.Pointer).Elem(), an.Module+"/internal/pgo", "Dots")
 	}
 	// edges on which the slot is known to be a list element, and on which the parent is a for statement
-	var listEdges, forEdges []an.CtrlEdge
+	var listEdges, forEdges, initNil, postNil []an.CtrlEdge
 	for _, b := range f.Blocks {
 		iff, ok := b.Instrs[len(b.Instrs)-1].(*ssa.If)
 		if !ok {
@@ -744,6 +744,26 @@ func loneElisionRejectedIn(r *an.Run, f *ssa.Function, gt map[string]string) int
 						succ = 1 - succ
 					}
 					listEdges = append(listEdges, an.CtrlEdge{Block: b, Succ: succ})
+				}
+			}
+		}
+		// forStmt.Init == nil / forStmt.Post == nil
+		if cmp, ok := cond.(*ssa.BinOp); ok && (cmp.Op == token.EQL || cmp.Op == token.NEQ) && an.IsNilConst(cmp.Y) {
+			if ld, ok := cmp.X.(*ssa.UnOp); ok {
+				if fa, ok := ld.X.(*ssa.FieldAddr); ok && strings.HasSuffix(an.ShortType(fa.X.Type()), "ast.ForStmt") {
+					succ := 0
+					if cmp.Op == token.NEQ {
+						succ = 1
+					}
+					if !pos {
+						succ = 1 - succ
+					}
+					switch fieldNameOf(fa) {
+					case "Init":
+						initNil = append(initNil, an.CtrlEdge{Block: b, Succ: succ})
+					case "Post":
+						postNil = append(postNil, an.CtrlEdge{Block: b, Succ: succ})
+					}
 				}
 			}
 		}
@@ -788,7 +808,82 @@ func loneElisionRejectedIn(r *an.Run, f *ssa.Function, gt map[string]string) int
 		case "go/ast.Stmt":
 			r.Check(len(listEdges) > 0 && unreachableWithout(c.Block(), listEdges), key, c.Pos(), "a \"...\" becomes a statement only where the slot is an element of a statement list (cursor.Index() >= 0): as the lone statement of a slot it would reach go/printer, which panics on it")
 		case "go/ast.Expr":
-			r.Check(len(listEdges) > 0 && unreachableWithout(c.Block(), append(append([]an.CtrlEdge{}, listEdges...), forEdges...)), key, c.Pos(), "a \"...\" becomes an expression only as an element of a list or as the condition of a for header")
+			// not a list element: only as the condition of a pure `for ... {` header — the parent is a for
+			// statement AND it has neither an init nor a post statement (ForDots handles exactly that form; in a
+			// three-clause header the node would be copied into the output)
+			good := len(listEdges) > 0
+			// decided under hypotheses (the conjunction may be held in a variable): the slot is not a list element
+			// (cursor.Index() < 0) and one of "parent is a for statement", "it has no init", "it has no post" is
+			// false — the replacement must then be unreachable
+			var isForV, initNilV, postNilV []ssa.Value
+			var idxCmp []*ssa.BinOp
+			for _, b := range f.Blocks {
+				for _, in := range b.Instrs {
+					switch x := in.(type) {
+					case *ssa.Extract:
+						if ta, ok := x.Tuple.(*ssa.TypeAssert); ok && x.Index == 1 && an.ShortType(ta.AssertedType) == "*ast.ForStmt" {
+							isForV = append(isForV, x)
+						}
+					case *ssa.BinOp:
+						if cc, ok := x.X.(*ssa.Call); ok && an.IsCallTo(cc, cursorIndex) {
+							idxCmp = append(idxCmp, x)
+						}
+						if (x.Op == token.EQL || x.Op == token.NEQ) && an.IsNilConst(x.Y) {
+							if ld, ok := x.X.(*ssa.UnOp); ok {
+								if fa, ok := ld.X.(*ssa.FieldAddr); ok && strings.HasSuffix(an.ShortType(fa.X.Type()), "ast.ForStmt") {
+									switch fieldNameOf(fa) {
+									case "Init":
+										initNilV = append(initNilV, x)
+									case "Post":
+										postNilV = append(postNilV, x)
+									}
+								}
+							}
+						}
+					}
+				}
+			}
+			if len(isForV) == 0 || len(initNilV) == 0 || len(postNilV) == 0 || len(idxCmp) == 0 {
+				good = false
+			}
+			for _, falsified := range [][]ssa.Value{isForV, initNilV, postNilV} {
+				fs := map[ssa.Value]bool{}
+				for _, v := range falsified {
+					fs[v] = true
+				}
+				assume := func(v ssa.Value) (bool, bool) {
+					if cmp, ok := v.(*ssa.BinOp); ok {
+						for _, ic := range idxCmp {
+							if cmp == ic {
+								k, isc := an.ConstInt(cmp.Y)
+								if !isc {
+									return false, false
+								}
+								// Index() is negative: evaluate the comparison
+								switch {
+								case cmp.Op == token.LSS && k == 0, cmp.Op == token.LEQ && k == -1:
+									return true, true
+								case cmp.Op == token.GEQ && k == 0, cmp.Op == token.GTR && k == -1:
+									return false, true
+								}
+								return false, false
+							}
+						}
+						if fs[v] {
+							// "field == nil" is false, "field != nil" is true
+							return cmp.Op == token.NEQ, true
+						}
+					}
+					if fs[v] {
+						return false, true
+					}
+					return false, false
+				}
+				if an.ReachUnder(f.Blocks[0], assume, nil)[c.Block()] {
+					good = false
+				}
+			}
+			r.Check(good, key, c.Pos(), "a \"...\" becomes an expression only as an element of a list or as the condition of a for header that has no init and no post statement")
 		case "*go/ast.Field":
 			r.Pass(key, c.Pos(), "a field is always an element of a field list")
 		default:
